@@ -358,3 +358,156 @@ Record sets_ok (p : plan) (s : state) (B : list nid) : Prop := {
   so_disjoint : forall n m v, n ∈ B -> m ∈ B -> n <> m ->
                   v ∈ targets (nodeActs p s n) -> v ∈ targets (nodeActs p s m) -> False
 }.
+
+Definition sets_okb (p : plan) (s : state) (B : list nid) : bool :=
+  (status s =? 1)
+  && forallb (fun n => forallb (fun a => negb (is_fault a)) (nodeActs p s n)
+                       && forallb (fun v => isVarKind (nkind (nd s v))) (targets (nodeActs p s n))) B
+  && forallb (fun n => forallb (fun m => bool_decide (n = m)
+                         || forallb (fun v => negb (bool_decide (v ∈ targets (nodeActs p s m)))) (targets (nodeActs p s n))) B) B.
+
+(** * 5. The behaviour BEFORE the fix "ParallelStabilize runs a block's structural nodes first and
+    skips nodes they tear down": the whole block, bind lhs-change nodes included, was handed to
+    the workers in one batch, and nothing was skipped.  Kept as documentation of the finding. *)
+Definition block_step_old (fuel : nat) (p : plan)
+  : state * option err * list nid -> nid -> res (state * option err * list nid) :=
+  fun '(s, e, always) n =>
+    '(s, e') <-! recomputeNodeParallel fuel p s n;
+    let always := if isAlways (nkind (nd s n)) then always ++ [n] else always in
+    Ok (s, match e with Some _ => e | None => e' end, always).
+
+Fixpoint parLoopS_old (sched : scheduler) (fuel : nat) (p : plan) (s : state) (always : list nid)
+  : res (state * option err * list nid) :=
+  match fuel with
+  | O => OutOfFuel
+  | S fuel =>
+    if Heap.cnt (heap s) <=? 0 then Ok (s, None, always) else
+    let '(block, w) := Heap.takeMinBlock (heap s) in
+    let s := s <| heap := w |> in
+    '(s, e, always) <-! rfold (block_step_old fuel p) (sched s block) (s, None, always);
+    match e with
+    | Some _ => Ok (s, e, always)
+    | None => parLoopS_old sched fuel p s always
+    end
+  end.
+
+Definition parStabilizeS_old (sched : scheduler) (p : plan) (s : state) : M :=
+  if negb (status s =? 0) then fail s EAlreadyStabilizing else
+  let s := emit EvPassStart (s <| status := 1 |>) in
+  '(s, e, always) <-! parLoopS_old sched (passFuel s) p s [];
+  s <-! rfold (fun s n => if (height (nd s n) =? unset) || inHeap s n then Ok s else heapAdd s n) always s;
+  s <-! stabilizeEnd s e;
+  Ok (s, e).
+
+(** the hand-built history of the finding: bind B2 (lhs-change 2, main 3) is used only by the
+    right-hand side of bind B1 (lhs-change 4, main 5); setting both inputs puts the two lhs-change
+    nodes in one height block, and B1's swap tears B2 down *)
+Definition w_ops : list op :=
+  [NewVar 0 false; NewVar 1 false; NewBind [TRet 5; TRet 6] 1%nat; NewBind [TOuter 3%nat; TRet 7] 0%nat;
+   Observe 5%nat; ParStabilize []; SetVar 0%nat 1; SetVar 1%nat 3].
+Definition w_state : res state := run (init 8) w_ops.
+Definition sw_sched : scheduler :=
+  fun _ b => if bool_decide (b = [4%nat; 2%nat]) then [2%nat; 4%nat] else b.
+Definition rev_sched : scheduler := fun _ b => reverse b.
+Definition obsValues (s : state) : list (nat * Z) :=
+  map (fun kv => (fst kv, valueOf s (snd kv))) (map_to_list (obs s)).
+
+(** * 4. Footprints of recomputeNodeParallel and the locks of graph.go *)
+Inductive field :=
+| FRecomputedAt | FChangedAt | FValue
+| FPending          (* varIncr.setDuringStabilization / setDuringStabilizationValue *)
+| FHeapHeight       (* Node.heightInRecomputeHeap *)
+| FShape.           (* kind, inputs, edges, observers, validity, necessity, height: written only by
+                       bind lhs-change nodes, which do not run concurrently with anything *)
+Inductive loc :=
+| LNode (n : nid) (f : field)
+| LHeap             (* recomputeHeap.numItems / heights / minHeight / maxHeight *)
+| LHandlers         (* Graph.handleAfterStabilization *)
+| LSetDuring        (* Graph.setDuringStabilization *)
+| LAlways.          (* parallelStabilize's immediateRecompute slice *)
+Inductive lock := RecomputeMu | HeapMu | HandlersMu | SetDuringMu | AlwaysMu.
+Global Instance field_eq_dec : EqDecision field. Proof. solve_decision. Defined.
+Global Instance loc_eq_dec : EqDecision loc. Proof. solve_decision. Defined.
+Global Instance lock_eq_dec : EqDecision lock. Proof. solve_decision. Defined.
+
+Record access := mkAcc { a_loc : loc; a_write : bool; a_locks : list lock }.
+Definition Rd (l : loc) (ls : list lock) : access := mkAcc l false ls.
+Definition Wr (l : loc) (ls : list lock) : access := mkAcc l true ls.
+
+(** the nodes whose [value] the node's Stabilize / cutoff reads *)
+Definition valsrcs (s : state) (n : nid) : list nid := omap (vsrc s) (reads s n).
+
+(** section 1, no lock held (graph.go:1198-1243 for a node that is not a bind lhs-change):
+    stamp, maybeCutoff, maybeStabilize, changedAt *)
+Definition fp_free (s : state) (n : nid) : list access :=
+  [Wr (LNode n FRecomputedAt) []; Rd (LNode n FShape) []; Rd (LNode n FValue) []]
+  ++ (if isVarKind (nkind (nd s n)) then [Rd (LNode n FPending) []] else [])
+  ++ map (fun x => Rd (LNode x FValue) []) (valsrcs s n)
+  ++ (if cutv s n then [] else [Wr (LNode n FValue) []; Wr (LNode n FChangedAt) []]).
+
+(** does [shouldRecomputeChild] reach [isStaleInRespectToParent] for the child? *)
+Definition readsParents (t : state) (c : nid) : bool :=
+  let x := nd t c in
+  isNecessary x && valid x
+  && negb (negb (hasStaler (nkind x)) && (recomputedAt x <? stabNum t))
+  && match nkind x with KVar _ | KReturn | KAlways => false | _ => negb (recomputedAt x =? 0) end.
+
+(** section 2, under recomputeMu (graph.go:1252-1262): the children scan *)
+Definition fp_child (t : state) (c : nid) : list access :=
+  [Rd (LNode c FHeapHeight) [RecomputeMu]; Rd (LNode c FShape) [RecomputeMu];
+   Rd (LNode c FRecomputedAt) [RecomputeMu]]
+  ++ (if readsParents t c then map (fun q => Rd (LNode q FChangedAt) [RecomputeMu]) (parents (nd t c)) else [])
+  ++ (if wantPush t c then [Wr LHeap [RecomputeMu]; Wr (LNode c FHeapHeight) [RecomputeMu]] else []).
+
+Definition fp_locked (s : state) (n : nid) : list access :=
+  if cutv s n then []
+  else Rd (LNode n FShape) [RecomputeMu] :: concat (map (fp_child (afterLocal s n)) (children (nd s n))).
+
+(** section 3: queueUpdateHandlers under handleAfterStabilizationMu *)
+Definition fp_handlers (s : state) (n : nid) : list access :=
+  if cutv s n then [] else [Rd (LNode n FShape) []; Wr LHandlers [HandlersMu]].
+
+Definition fp_always (s : state) (n : nid) : list access :=
+  if isAlways (nkind (nd s n)) then [Wr LAlways [AlwaysMu]] else [].
+
+Definition footprint (s : state) (n : nid) : list access :=
+  fp_free s n ++ fp_locked s n ++ fp_handlers s n ++ fp_always s n.
+
+(** a node whose function fails or panics: recomputeFailed / recomputePanicked call
+    recomputeHeap.addIfNotPresent, which takes the HEAP's own mutex, not recomputeMu *)
+Definition fp_fail (n : nid) : list access :=
+  [Wr (LNode n FRecomputedAt) []; Rd (LNode n FHeapHeight) [HeapMu]; Wr LHeap [HeapMu];
+   Wr (LNode n FHeapHeight) [HeapMu]].
+
+(** a node function calling v.Set / v.Update while the graph is stabilizing *)
+Definition fp_set (v : nid) : list access :=
+  [Rd (LNode v FShape) []; Rd (LNode v FValue) []; Rd (LNode v FPending) []; Wr (LNode v FPending) [];
+   Wr LSetDuring [SetDuringMu]].
+
+Definition conflict (a b : access) : Prop := a_loc a = a_loc b /\ (a_write a || a_write b) = true.
+Definition covered (a b : access) : Prop := exists l, l ∈ a_locks a /\ l ∈ a_locks b.
+
+(** the one pair the locks of graph.go do not cover on the success path: [x] writes its changedAt
+    with no lock held (graph.go:1243) while a sibling's children scan reads it under recomputeMu *)
+Definition stale_pair (a b : access) (x : nid) : Prop :=
+  a = Wr (LNode x FChangedAt) [] /\ b = Rd (LNode x FChangedAt) [RecomputeMu].
+
+(** what "field [f] of node [x] is the same in [s] and [s']" means *)
+Definition shape_eq (y y' : node) : Prop :=
+  nkind y = nkind y' /\ decl y = decl y' /\ scope y = scope y' /\ height y = height y' /\ hAdj y = hAdj y' /\
+  setAt y = setAt y' /\ parents y = parents y' /\ children y = children y' /\ observers y = observers y' /\
+  valid y = valid y' /\ forceNec y = forceNec y' /\ inGraph y = inGraph y'.
+Definition field_same (f : field) (s s' : state) (x : nid) : Prop :=
+  match f with
+  | FRecomputedAt => recomputedAt (nd s' x) = recomputedAt (nd s x)
+  | FChangedAt => changedAt (nd s' x) = changedAt (nd s x)
+  | FValue => value (nd s' x) = value (nd s x)
+  | FPending => pending (nd s' x) = pending (nd s x)
+  | FHeapHeight => Heap.hinOf (heap s') x = Heap.hinOf (heap s) x
+  | FShape => shape_eq (nd s' x) (nd s x)
+  end.
+Definition not_written (fp : list access) (l : loc) : Prop :=
+  forall a, a ∈ fp -> a_write a = true -> a_loc a <> l.
+
+(** a plan for the example block [2; 3]: node 2's function sets var 0, node 3's updates var 1 *)
+Definition ex_plan : plan := [(2%nat, WFn, ASet 0%nat 3); (3%nat, WFn, AUpdate 1%nat 2)].
